@@ -314,6 +314,9 @@ def run_check(cid, cfg, tier, seed, binary, work, a, t0):
                 print("KNOWN-FINDING: property=%s %s [%s]" % (cid, k["what"], k["key"]))
             elif st == "error":
                 inconclusive.append("witness %s: %s" % (path, out[-300:]))
+            else:
+                # listed finding whose witness did not fail in this run (schedule dependent witnesses)
+                print("KNOWN-FINDING: property=%s %s [%s] (witness did not reproduce in this run)" % (cid, k["what"], k["key"]))
             continue
         if st == "fail":
             violations.append((path, "committed replay fails: " + out[-400:]))
